@@ -21,6 +21,7 @@ import importlib
 import json
 import os
 import pickle
+import signal
 import subprocess
 import sys
 import tempfile
@@ -215,6 +216,11 @@ def run_shards(prop, modname, tier, seed, shards, jobs, shard_timeout):
             rc = p.poll()
             if rc is None:
                 if time.time() - t0 > shard_timeout:
+                    try:
+                        p.send_signal(signal.SIGABRT)      # -X faulthandler: every thread's stack goes to the shard log first
+                        p.wait(5)
+                    except Exception:
+                        pass
                     p.kill()
                     p.wait()
                     procs.remove(ent)
